@@ -58,10 +58,10 @@ TypeOfOp(nd, ts) ==
            THEN MkT("b", Append(BShape(Front(ts[1].sh), Front(ts[2].sh)), LastOf(ts[1].sh))) ELSE ErrT
       [] nd.fam = "Clip2K" ->
            IF Len(ts) = 1 /\ IsArr(ts[1]) /\ ts[1].st = "b" /\ nd.kk + 2 <= LastOf(ts[1].sh) THEN ts[1] ELSE ErrT
-      [] nd.fam = "Mux" ->       \* bit choices only (the integer branch is judged by C16/C17)
-           IF Len(ts) = 3 /\ \A j \in 1..3 : IsNum(ts[j]) /\ ts[j].st = "b"
+      [] nd.fam = "Mux" ->       \* a flag of bits, two choices of one scalar type (bits or integers), all three broadcast
+           IF Len(ts) = 3 /\ (\A j \in 1..3 : IsNum(ts[j])) /\ ts[1].st = "b" /\ ts[2].st = ts[3].st
            THEN LET sh == BShape(BShape(ShapeOf(ts[1]), ShapeOf(ts[2])), ShapeOf(ts[3]))
-                IN IF BadShape(BShape(ShapeOf(ts[1]), ShapeOf(ts[2]))) \/ BadShape(sh) THEN ErrT ELSE MkT("b", sh)
+                IN IF BadShape(BShape(ShapeOf(ts[1]), ShapeOf(ts[2]))) \/ BadShape(sh) THEN ErrT ELSE MkT(ts[2].st, sh)
            ELSE ErrT
       [] nd.fam = "Not" ->
            IF Len(ts) = 1 /\ IsNum(ts[1]) /\ ts[1].st = "b" THEN ts[1] ELSE ErrT
